@@ -27,11 +27,26 @@ type caseT struct {
 	note  string
 }
 
+// hlib.NewRng(seed) starts splitmix64 at seed·γ + const and steps by γ: the streams of seeds 1, 2, 3 are the same
+// stream shifted by one or two draws, and the generators re-synchronise after a few cases (VERIF_SEED=1 and 3 evaluated
+// the same 50 062 cases).  The seed is therefore scrambled first, so that different seeds give unrelated runs.
+func scramble(x uint64) uint64 {
+	x += 0x632BE59BD9B4E019
+	x = (x ^ (x >> 30)) * 0xBF58476D1CE4E5B9
+	x = (x ^ (x >> 27)) * 0x94D049BB133111EB
+	return x ^ (x >> 31)
+}
+
 func run(c *Ctx) {
+	c.Rng = NewRng(scramble(c.Seed))
 	// C15_SDP_LINE="<kind> <hex> <form seed> <spec>": print the op line of that SDP case (for corpus files) and stop
 	if a := strings.Fields(os.Getenv("C15_SDP_LINE")); len(a) == 4 {
 		seed, _ := strconv.ParseUint(a[2], 10, 64)
-		fmt.Println(sdpLine(a[0], Unhx(a[1]), seed, a[3]))
+		vps0, pps0 := goodVps265, goodPps265
+		if a[0] == "h264" {
+			vps0, pps0 = nil, sdpPps264
+		}
+		fmt.Println(sdpLine(a[0], Unhx(a[1]), vps0, pps0, seed, a[3]))
 		os.Exit(0)
 	}
 	var cases, derived []caseT
